@@ -299,7 +299,15 @@ func (ld *Loaded) RunHarness(name string, opts RunOptions) (*Result, error) {
 	return r.res, nil
 }
 
+func (w *worker) taCache() map[taKey]int8 {
+	if w.ta == nil {
+		w.ta = make(map[taKey]int8)
+	}
+	return w.ta
+}
+
 type worker struct {
+	ta   map[taKey]int8
 	id   int
 	sol  *solver
 	used int
@@ -322,7 +330,7 @@ func (r *Run) worker(id int) {
 		if !ok {
 			return
 		}
-		if w.sol == nil || w.sol.dead || w.used >= 300 {
+		if w.sol == nil || w.sol.dead || w.used >= reuseLimit {
 			if w.sol != nil {
 				r.mu.Lock()
 				r.res.SolverWall += w.sol.wall
@@ -395,6 +403,7 @@ func (r *Run) runPath(w *worker, prefix []int32) {
 		ld:      r.ld,
 		fninfo:  w.fninfoCache(),
 		consts:  make(map[*ssa.Const]value),
+		tacache: w.taCache(),
 	}
 	if r.opts.Trace {
 		i.mode |= EnableTracing
@@ -524,3 +533,14 @@ func (w *worker) fninfoCache() map[*ssa.Function]*fnInfo {
 	}
 	return w.fi
 }
+
+var reuseLimit = func() int {
+	if v := os.Getenv("SYMGO_REUSE"); v != "" {
+		n := 0
+		fmt.Sscanf(v, "%d", &n)
+		if n > 0 {
+			return n
+		}
+	}
+	return 300
+}()
